@@ -203,6 +203,17 @@ example : IAgree ⟨[⟨20, 5, [[1]]⟩], [⟨FMap.empty, [FMap.empty, Layer.ins
       simp [hk, this, appAll]
   | succ i => simp at hi
 
+/-- the hypotheses `OpsOK` / fresh offsets are CHECKED on every replayed history: the drivers of
+C06 / C03 / C16 run `driveStepOK` (Gsu/Model/DbOK.lean), which answers `!hyp-opok` / `!hyp-fresh`
+— a disagreement with any implementation output — for an operation that violates them; otherwise
+the operation satisfies `OpOK` in the driver's current state, its record offset is new, and the
+driver did exactly `step`. -/
+theorem hypotheses_checked_by_driver (ds : DState) (l : List String) (op : Op) (h : parseOp l = some op)
+    (h1 : (driveStepOK ds l).2 ≠ "!hyp-opok") (h2 : (driveStepOK ds l).2 ≠ "!hyp-fresh") :
+    OpOK ds.s op ∧ (∀ row, op.newRow = some row → row.off ∉ ds.used) ∧
+    driveStepOK ds l = (⟨(step ds.s op).1, usedAfter ds.used op⟩, (step ds.s op).2) :=
+  driveStepOK_checked ds l op h h1 h2
+
 /-- a concrete history for the non-vacuity examples: two indexes; commits; an Update that keeps
 the key on index 0 and changes it on index 1; a merge computed before and applied after a commit;
 a persist computed before and applied after a commit (by a transaction whose snapshot is older
